@@ -16,6 +16,7 @@ import (
 	"mime/multipart"
 	"net/mail"
 	"net/textproto"
+	"sort"
 	"strconv"
 	"strings"
 )
@@ -56,6 +57,49 @@ type Report struct {
 	Rcpts      []ReportRcpt
 	OrigHeader []byte // body of the third part
 	Problems   []string
+
+	// Facts about octets outside of ASCII (not Problems: whether they are
+	// allowed depends on the SMTPUTF8 flag of the delivery, which the caller
+	// knows). Lower-cased field names, in order of first appearance, each once.
+	// Header8bit: fields of the top-level header; PartHeader8bit: fields of
+	// the MIME headers of the parts ("part<N>/<field>"); Status8bit: fields
+	// of any group of the delivery-status part. A line that belongs to no
+	// field is named "(no-field)".
+	Header8bit     []string
+	PartHeader8bit []string
+	Status8bit     []string
+}
+
+// Fields8bit returns the lower-cased names of the header fields of raw (one
+// or more header blocks, blank lines are skipped) that contain an octet
+// outside of ASCII in their name or (folded) body.
+func Fields8bit(raw []byte) []string {
+	var out []string
+	seen := map[string]bool{}
+	cur := "(no-field)"
+	for _, l := range strings.Split(strings.ReplaceAll(string(raw), "\r\n", "\n"), "\n") {
+		if strings.Trim(l, "\r") == "" {
+			cur = "(no-field)"
+			continue
+		}
+		if l[0] != ' ' && l[0] != '\t' {
+			if i := strings.IndexByte(l, ':'); i >= 0 {
+				cur = strings.ToLower(strings.TrimSpace(l[:i]))
+			} else {
+				cur = "(no-field)"
+			}
+		}
+		for i := 0; i < len(l); i++ {
+			if l[i] >= 0x80 {
+				if !seen[cur] {
+					seen[cur] = true
+					out = append(out, cur)
+				}
+				break
+			}
+		}
+	}
+	return out
 }
 
 func (r *Report) problem(format string, a ...interface{}) {
@@ -94,6 +138,7 @@ func splitTyped(v string) (typ, rest string, ok bool) {
 // It never fails: everything that is wrong ends up in Problems.
 func ParseReport(header, body []byte) *Report {
 	r := &Report{}
+	r.Header8bit = Fields8bit(header)
 	raw := append(append([]byte(nil), header...), body...)
 	msg, err := mail.ReadMessage(bytes.NewReader(raw))
 	if err != nil {
@@ -147,11 +192,20 @@ func ParseReport(header, body []byte) *Report {
 			rp.MediaType = "text/plain"
 		}
 		r.Parts = append(r.Parts, rp)
+		for name, vals := range p.Header {
+			for _, v := range vals {
+				if !isASCII(name) || !isASCII(v) {
+					r.PartHeader8bit = append(r.PartHeader8bit, fmt.Sprintf("part%d/%s", len(r.Parts), strings.ToLower(name)))
+					break
+				}
+			}
+		}
 		if len(r.Parts) > 16 {
 			r.problem("too-many-parts")
 			break
 		}
 	}
+	sort.Strings(r.PartHeader8bit)
 	if len(r.Parts) != 3 {
 		r.problem("part-count-not-3")
 	}
@@ -161,6 +215,7 @@ func ParseReport(header, body []byte) *Report {
 	if len(r.Parts) >= 2 {
 		switch r.Parts[1].MediaType {
 		case "message/delivery-status", "message/global-delivery-status":
+			r.Status8bit = Fields8bit(r.Parts[1].Body)
 			r.parseStatus(r.Parts[1].Body)
 		default:
 			r.problem("second-part-not-delivery-status")
@@ -175,6 +230,15 @@ func ParseReport(header, body []byte) *Report {
 		}
 	}
 	return r
+}
+
+func isASCII(s string) bool {
+	for i := 0; i < len(s); i++ {
+		if s[i] >= 0x80 {
+			return false
+		}
+	}
+	return true
 }
 
 func (r *Report) parseStatus(b []byte) {
